@@ -4,7 +4,10 @@ use futures::TryFutureExt;
 use serde::{Deserialize, Serialize};
 use std::{
     net::{IpAddr, SocketAddr},
-    sync::Arc,
+    sync::{
+        atomic::{AtomicBool, Ordering},
+        Arc,
+    },
 };
 use tokio::{
     net::{TcpListener, TcpStream},
@@ -149,6 +152,7 @@ impl SocksListener {
             .set_callback(Callback {
                 version: request.version,
                 listen_addr: None,
+                connected: AtomicBool::new(false),
             })
             .set_client_stream(socket);
 
@@ -200,6 +204,7 @@ impl SocksListener {
                     .set_callback(Callback {
                         version: request.version,
                         listen_addr: Some(listen_addr),
+                        connected: AtomicBool::new(false),
                     })
                     .set_idle_timeout(state.timeouts.udp);
                 ctx.enqueue(&queue).await?;
@@ -216,6 +221,8 @@ impl SocksListener {
 struct Callback {
     version: u8,
     listen_addr: Option<SocketAddr>,
+    // set once the success reply was sent: a SOCKS request gets exactly one reply
+    connected: AtomicBool,
 }
 
 #[async_trait]
@@ -230,11 +237,18 @@ impl ContextCallback for Callback {
             cmd,
             target,
         };
+        self.connected.store(true, Ordering::Relaxed);
         if let Some(e) = resp.write_to(socket.unwrap()).await.err() {
             warn!("failed to send response: {}", e)
         }
     }
     async fn on_error(&self, ctx: &mut Context, _error: Error) {
+        // the control connection of a UDP association stays with the context: when the
+        // association ends with an error (its idle timeout included) the client has already
+        // been told "succeeded" and must not get a second, contradicting reply
+        if self.connected.load(Ordering::Relaxed) {
+            return;
+        }
         let version = self.version;
         let cmd = SOCKS_REPLY_GENERAL_FAILURE;
         let target = "0.0.0.0:0".parse().unwrap();
